@@ -354,11 +354,24 @@ def run_part(pid, tier="quick", seed=0, replay=None, report_pid=None):
     notes = []
     evid_extra = {}
 
+    # ---- 0. translator tie: regenerate the Gallina kernels of this property from /repo's current source
+    gen_problems = []
+    for cfg, outv in getattr(prop, "TRANSLATE", ()):
+        env = dict(os.environ, VERIF_REPO=str(REPO))
+        rc, out, err = sh([sys.executable, str(ROOT / "translate" / "cxx2gallina.py"), str(ROOT / cfg), str(ROOT / outv)], env=env, timeout=600)
+        try:
+            info = json.loads(out.strip().splitlines()[-1])
+        except Exception:
+            info = {"refused": {"?": (out + err)[-400:]}}
+        for k, why in info.get("refused", {}).items():
+            gen_problems.append(f"translator refused kernel {k} of {cfg}: {why}")
+        evid_extra.setdefault("translated_kernels", []).extend(info.get("kernels", []))
+
     # ---- 1. Coq
     coq_ok, coq_log = coq_build(pid, getattr(prop, "EXTRA_COQ_TARGETS", ()))
     thms, asm_log, asm_ok = coq_assumptions(pid)
     forb = forbidden_scan()
-    broken_obl = []
+    broken_obl = list(gen_problems)
     if not coq_ok:
         broken_obl.append("coq build of %s/Properties.vo failed: %s" % (pid, coq_log[-1500:]))
     if not asm_ok:
